@@ -69,7 +69,7 @@ def eval_case(case):
     targets = case['targets']
     fails = []
     net, srv = setup_net(case)
-    argv = ['-n'] + (['-j'] if case['json'] else []) + ([fam] if fam else []) + (['--skip-rate-test'] if not case.get('rate') else [])
+    argv = ['-n'] + (['-j'] if case['json'] else []) + (fam.split() if fam else []) + (['--skip-rate-test'] if not case.get('rate') else [])
     if case['p_opt'] is not None:
         argv += ['-p', str(case['p_opt'])]
     if case.get('policy'):
@@ -110,7 +110,11 @@ def eval_case(case):
         fails.append([drive.crash_sig(r), r.brief()])
         return mkres(case, nt=nt, classes=cl, fails=fails)
     hosts = {t['host'] for t in targets}
-    allowed = {'-4': {AF4}, '-6': {AF6}}.get(fam, {AF4, AF6})
+    order = []      # requested families in order of first mention ("-44" and "-4 -4" say no more than "-4")
+    for ch in fam:
+        if ch in '46' and ch not in order:
+            order.append(ch)
+    allowed = {{'4': AF4, '6': AF6}[ch] for ch in order} or {AF4, AF6}
     unusable = [t for t in targets if not [a for a, _ in (net.resolve.get(t['host']) or [(AF6 if ':' in t['host'] else AF4, t['host'])]) if a in allowed]]
     if unusable:
         # no address of a requested family: nothing may be dialled for that target and the run cannot be clean
@@ -144,16 +148,14 @@ def eval_case(case):
         by_target.setdefault(owner['text'], []).append(af)
         if not nb:
             audit_conns.setdefault(owner['text'], []).append(af)
-        if af in (AF4, AF6) and fam in ('-46', '-64'):
-            pass
     for t in targets:
         ips = net.resolve.get(t['host']) or [(AF6 if ':' in t['host'] else AF4, t['host'])]
         usable = [a for a, _ in ips if a in allowed]
         got = by_target.get(t['text'], [])
         if usable and not got and not fails:
             fails.append(['no-connection-attempt-to-named-target', 'argv %r target %r (exit %d, out %r)' % (argv, t['text'], r.code, r.out[-200:])])
-        if got and fam in ('-46', '-64') and len(set(usable)) == 2:
-            pref = AF4 if fam == '-46' else AF6
+        if got and len(order) == 2 and len(set(usable)) == 2:
+            pref = AF4 if order[0] == '4' else AF6
             if got[0] != pref:
                 fails.append(['preferred-family-not-tried-first', 'argv %r: first attempt family %d, preferred %d' % (argv, got[0], pref)])
             elif any(a != pref for a in audit_conns.get(t['text'], [])):     # (the rate check dials a single address; only family membership is required there)
@@ -235,7 +237,7 @@ def strat_case():
             seen.add((x['host'], eport))
             out.append(dict(x, eport=eport, text=spell(x['host'], x['port'], x['spelling'])))
         return {'targets': out, 'where': where, 'p_opt': p_opt, 'fam': fam, 'json': js, 'noise': noise and where == 'file', 'rate': rate and where == 'cli' and not js and not pol, 'policy': pol}
-    return st.tuples(st.lists(tgt, min_size=3, max_size=3), st.sampled_from(['cli', 'cli', 'file']), st.one_of(st.none(), st.none(), st.sampled_from([22, 2222, 1, 65535, 8022])), st.sampled_from(['', '', '-4', '-6', '-46', '-64']),
+    return st.tuples(st.lists(tgt, min_size=3, max_size=3), st.sampled_from(['cli', 'cli', 'file']), st.one_of(st.none(), st.none(), st.sampled_from([22, 2222, 1, 65535, 8022])), st.sampled_from(['', '', '', '-4', '-6', '-46', '-64', '-4', '-6', '-46', '-64', '-44', '-66', '-4 -4', '-6 -6', '-4 -6', '-6 -4', '-4 -6 -4', '-6 -4 -6', '-446', '-664']),
                      st.booleans(), st.booleans(), st.integers(0, 2), st.sampled_from([False, False, False, True]), st.sampled_from([False, False, True])).map(build)
 
 
@@ -263,5 +265,5 @@ NO_SHRINK_KEYS = ('targets',)
 def run(ctx):
     ctx.hyp('strat_case', 15000 if ctx.quick else 200000, label=1)
     ctx.hyp('strat_invalid', 1500 if ctx.quick else 10000, label=2)
-    return ctx.finish('exploration', 'Hypothesis targets: host names, IPv4, IPv6 (compressed and full) x ports {1, 22, 2222, 65535, random} x spellings (host, host:port, bare IPv6, [IPv6], [IPv6]:port) x {command line, targets file of 1-3 lines with blank / whitespace-only lines and surrounding blanks} x -p absent/present x {-4, -6, -46, -64, none} x synthetic resolver answers (v4 only, v6 only, both in either order); invalid ports {0, 65536, 99999, 70000, -1} in -p and in the spelling; non-trivial = IPv6, a family option, a file line overriding -p, or an invalid port',
+    return ctx.finish('exploration', 'Hypothesis targets: host names, IPv4, IPv6 (compressed and full) x ports {1, 22, 2222, 65535, random} x spellings (host, host:port, bare IPv6, [IPv6], [IPv6]:port) x {command line, targets file of 1-3 lines with blank / whitespace-only lines and surrounding blanks} x -p absent/present x {-4, -6, -46, -64, the same flags repeated or split (-44, -4 -4, -4 -6 -4, -446 ...), none} x synthetic resolver answers (v4 only, v6 only, both in either order, 3-4 interleaved addresses); policy audits (Host: label, JSON host/port); invalid ports {0, 65536, 99999, 70000, -1} in -p and in the spelling; non-trivial = IPv6, a family option, a file line overriding -p, or an invalid port',
                       assumptions=['an explicit port in the target spelling wins over -p ("the port option as default")', 'rate-test sockets need only be of an allowed family (that phase dials a single address)'])
